@@ -752,11 +752,51 @@ fn body_json<'tcx>(tcx: TyCtxt<'tcx>, owner: DefId, body: &Body<'tcx>) -> String
                 let arg_tys: Vec<String> = args.iter().map(|s| esc(&ty_str(s.node.ty(&body.local_decls, tcx)))).collect();
                 let dty = destination.ty(&body.local_decls, tcx).ty;
                 let _ = fn_span;
+                // closure / fn-item definitions mentioned in each argument type
+                let arg_defs: Vec<String> = args
+                    .iter()
+                    .map(|s| {
+                        let mut v: Vec<String> = Vec::new();
+                        for ga in s.node.ty(&body.local_decls, tcx).walk() {
+                            if let Some(t) = ga.as_type() {
+                                match t.kind() {
+                                    ty::Closure(d, _) | ty::FnDef(d, _) => v.push(esc(&name_of(tcx, *d))),
+                                    _ => {}
+                                }
+                            }
+                        }
+                        list(v)
+                    })
+                    .collect();
+                // `<Self as Iterator>::Item` for calls of Iterator methods
+                let mut item_ty: Option<String> = None;
+                if let ty::FnDef(did, gargs) = fty.kind() {
+                    if let Some(tr) = tcx.trait_of_assoc(*did) {
+                        if tcx.is_diagnostic_item(rustc_span::sym::Iterator, tr) {
+                            if let Some(self_ty) = gargs.get(0).and_then(|a| a.as_type()) {
+                                let item_did = tcx
+                                    .associated_items(tr)
+                                    .in_definition_order()
+                                    .find(|a| a.is_type() && a.name().as_str() == "Item")
+                                    .map(|a| a.def_id);
+                                if let Some(item_did) = item_did {
+                                    let proj = Ty::new_projection(tcx, item_did, [self_ty]);
+                                    let env = TypingEnv::post_analysis(tcx, owner);
+                                    if let Ok(n) = tcx.try_normalize_erasing_regions(env, rustc_middle::ty::Unnormalized::new(proj)) {
+                                        item_ty = Some(ty_str(n));
+                                    }
+                                }
+                            }
+                        }
+                    }
+                }
                 format!(
-                    "{{\"k\":\"call\",\"callee\":{},\"args\":{},\"arg_tys\":{},\"dest\":{},\"dest_ty\":{},\"target\":{},\"unwind\":{},{}}}",
+                    "{{\"k\":\"call\",\"callee\":{},\"args\":{},\"arg_tys\":{},\"arg_defs\":{},\"item_ty\":{},\"dest\":{},\"dest_ty\":{},\"target\":{},\"unwind\":{},{}}}",
                     callee,
                     list(a),
                     list(arg_tys),
+                    list(arg_defs),
+                    opt_str(item_ty),
                     place_json(tcx, body, destination),
                     esc(&ty_str(dty)),
                     bb_opt(*target),
